@@ -5,7 +5,7 @@ import fcntl, hashlib, json, os, re, subprocess, sys, time, shutil
 V = '/verif'
 B = V + '/build'
 COQ = V + '/coq'
-RUN = B + '/run'
+RUN = B + '/run/p%d' % os.getpid()      # per-process scratch directory (several checks may run at the same time)
 REPO = '/repo'
 NPROC = 16
 
@@ -13,6 +13,14 @@ GOENV = dict(os.environ, GOFLAGS='-mod=mod', GOPROXY='off', GOSUMDB='off', GOTOO
 GOENV_RACE = dict(GOENV, CGO_ENABLED='1')
 
 T0 = time.time()
+
+
+def _cleanup_run():
+    shutil.rmtree(RUN, ignore_errors=True)
+
+
+import atexit
+atexit.register(_cleanup_run)
 
 
 def log(*a):
@@ -86,6 +94,18 @@ def _newer(a, b):
     return (not os.path.exists(b)) or os.path.getmtime(a) > os.path.getmtime(b)
 
 
+def _install(new, dst):
+    """replace dst by new only when the content differs (a rename is safe while another check still executes the old file)"""
+    try:
+        same = os.path.exists(dst) and open(new, 'rb').read() == open(dst, 'rb').read()
+    except OSError:
+        same = False
+    if same:
+        os.remove(new)
+    else:
+        os.replace(new, dst)
+
+
 def build(need_race=False):
     """Rebuild everything a check needs from /repo's working tree.  Serialised by a file lock; cheap when nothing changed."""
     t = time.time()
@@ -97,20 +117,26 @@ def build(need_race=False):
     try:
         # 1. Go: harness with hooks on, engine binary as shipped (tag off) and with the tag (sync points live)
         shutil.copyfile(REPO + '/go.sum', V + '/harness/go.sum')
-        rc, out = sh(['go', 'build', '-tags', 'verif', '-o', B + '/verifh', '.'], cwd=V + '/harness', env=GOENV)
+        rc, out = sh(['go', 'build', '-tags', 'verif', '-o', B + '/verifh.new', '.'], cwd=V + '/harness', env=GOENV)
+        if rc == 0:
+            _install(B + '/verifh.new', B + '/verifh')
         if rc != 0:
             b.ok_go = False
             b.coq_log = out
             log('go build of harness failed:\n' + out)
             return b
-        rc, out = sh(['go', 'build', '-o', B + '/magog', '.'], cwd=REPO, env=GOENV)
+        rc, out = sh(['go', 'build', '-o', B + '/magog.new', '.'], cwd=REPO, env=GOENV)
+        if rc == 0:
+            _install(B + '/magog.new', B + '/magog')
         if rc != 0:
             b.ok_go = False
             b.coq_log = out
             log('go build of engine failed:\n' + out)
             return b
         if need_race:
-            rc, out = sh(['go', 'build', '-race', '-tags', 'verif', '-o', B + '/verifh_race', '.'], cwd=V + '/harness', env=GOENV_RACE)
+            rc, out = sh(['go', 'build', '-race', '-tags', 'verif', '-o', B + '/verifh_race.new', '.'], cwd=V + '/harness', env=GOENV_RACE)
+            if rc == 0:
+                _install(B + '/verifh_race.new', B + '/verifh_race')
             if rc != 0:
                 log('race build failed (cgo unavailable?):\n' + out[-600:])
         # 2. regenerate the data part of the model from the built code
